@@ -1,4 +1,4 @@
-(* C16: the defect class of the formatter round trip that was REPAIRED in /repo (fix commit <commit>),
+(* C16: the defect class of the formatter round trip that was REPAIRED in /repo (fix commit c039e57),
    in closed form; kept for the regression lemmas and to name a recurrence in the correspondence run.
 
    Before the repair a literal 0 that ends the first operand or starts the second operand of an `if`
